@@ -3,7 +3,7 @@ use crate::internal::stringpool::StringPool;
 use crate::internal::table::{Row, Rows, Table, MAX_NUM_TABLE_ROWS};
 use crate::internal::value::{Value, ValueRef};
 use cfb;
-use std::collections::{BTreeMap, HashSet};
+use std::collections::{BTreeMap, HashMap, HashSet};
 use std::fmt;
 use std::io::{self, Read, Seek, Write};
 use std::rc::Rc;
@@ -221,6 +221,16 @@ impl Insert {
                 );
             }
             new_keys_set.insert(keys);
+        }
+        if !string_pool.has_room_for(
+            new_rows.iter().flatten().filter_map(Value::as_str),
+            0,
+        ) {
+            invalid_input!(
+                "Cannot insert rows into table {:?}: too many distinct \
+                 strings in the database",
+                self.table_name
+            );
         }
         if rows_map.len() + new_rows.len() > MAX_NUM_TABLE_ROWS {
             invalid_input!(
@@ -745,6 +755,41 @@ impl Update {
                 (index, value.into_stored())
             })
             .collect();
+        // Count the pool entries that replacing the old cells will free.
+        let mut num_released = HashMap::<i32, u32>::new();
+        for (value_refs, &matched) in rows.iter().zip(should_update.iter()) {
+            if matched {
+                for (index, _) in updates.iter() {
+                    if let ValueRef::Str(string_ref) = value_refs[*index] {
+                        *num_released.entry(string_ref.number()).or_insert(0) +=
+                            1;
+                    }
+                }
+            }
+        }
+        let num_freed = rows
+            .iter()
+            .flatten()
+            .filter_map(|value_ref| match value_ref {
+                ValueRef::Str(string_ref) => Some(*string_ref),
+                _ => None,
+            })
+            .filter(|string_ref| {
+                num_released.remove(&string_ref.number()).is_some_and(
+                    |count| string_pool.refcount(*string_ref) as u32 <= count,
+                )
+            })
+            .count();
+        if !string_pool.has_room_for(
+            updates.iter().filter_map(|upd| upd.1.as_str()),
+            num_freed,
+        ) {
+            invalid_input!(
+                "Cannot update table {:?}: too many distinct strings in the \
+                 database",
+                self.table_name
+            );
+        }
         // If primary key columns are being assigned, make sure that the keys
         // will still be unique.
         let key_indices = table.primary_key_indices();
